@@ -50,6 +50,8 @@ def gen_history(rng, length):
 def check_history(res, rng, metric, kind, length):
     n = int(rng.choice([25, 60, 110])); k = int(rng.choice([3, 6])); dim = 4 if kind != "bits" else 3
     X, L0 = api.gen_dataset(rng, metric, kind, n, dim)
+    for t in range(0, min(n - 1, 12), 2):                 # exact twins: a point lists its twin at distance 0 (possibly in column 0)
+        X[t + 1] = X[t]; L0[t + 1] = L0[t]
     kw = api.metric_kwds(metric, rng, dim)
     cfg = {"tree_init": bool(rng.integers(4) > 0), "low_memory": bool(rng.integers(2)), "seed": int(rng.integers(10 ** 6))}
     ops = gen_history(rng, length)
@@ -93,7 +95,7 @@ def check_history(res, rng, metric, kind, length):
             if nf:
                 fresh, fresh_l = api.gen_dataset(rng, metric, kind, nf, dim)
             if nr:
-                repl = sorted(set(int(v) for v in rng.integers(0, cur_n, nr)))
+                repl = sorted(set(int(v) for v in rng.integers(0, cur_n, nr)) | {int(2 * rng.integers(0, 6))})   # always one twin
                 upd, upd_l = api.gen_dataset(rng, metric, kind, len(repl), dim)
             try:
                 idx.update(xs_fresh=fresh, xs_updated=upd, updated_indices=repl if nr else None)
